@@ -86,6 +86,7 @@ func checkDefs() map[string]*CheckDef {
 					mc("lookups-from-init-n3", "VerifC01", map[string]int{"N": 3, "POINTS": 1, "LOOKUP": 1}, "start ok", "lookup from Init"),
 					mc("wrap-n2-lookups-from-init", "VerifC03", map[string]int{"N": 2, "POINTS": 1, "LOOKUP": 1}, "start ok", "wrapped"),
 					mc("wrap-n2-typed-point", "VerifC03", map[string]int{"N": 2, "POINTS": 9}, "start ok", "start failed", "wrapped"),
+					mc("repeated-attempt-n2", "VerifC03Retry", map[string]int{"N": 2, "POINTS": 1, "FAULTS": 1, "LOOKUPS": 2, "LAZY": 1}, "start ok", "start failed", "wrapped", "target published by a repeated attempt", "lookup after failure reports an error"),
 				}
 				if tier == "thorough" {
 					r = append(r, mc("mc-n3-single+slice", "VerifC01", map[string]int{"N": 3, "POINTS": 5}, "start ok"))
@@ -121,14 +122,15 @@ func checkDefs() map[string]*CheckDef {
 					mc("wrap-n3-single", "VerifC03", map[string]int{"N": 3, "POINTS": 1}, "start ok", "wrapped"),
 					mc("wrap-n2-lookups-from-init", "VerifC03", map[string]int{"N": 2, "POINTS": 1, "LOOKUP": 1}, "start ok", "wrapped"),
 					mc("wrap-n2-typed-point", "VerifC03", map[string]int{"N": 2, "POINTS": 9}, "start ok", "start failed", "wrapped"),
+					mc("repeated-attempt-n2", "VerifC03Retry", map[string]int{"N": 2, "POINTS": 1, "FAULTS": 1, "LOOKUPS": 2, "LAZY": 1}, "start ok", "start failed", "wrapped", "target published by a repeated attempt", "lookup after failure reports an error"),
 				}
 				if tier == "thorough" {
 					r = append(r, mc("wrap-n2-all-points", "VerifC03", map[string]int{"N": 2, "POINTS": 7}, "start ok", "wrapped"))
 				}
 				return r
 			},
-			LevelText: "Bounded symbolic model checking of the real factory with a substituting SmartInstantiationAware post-processor whose behaviour (which component is wrapped, at early reference and/or after initialization, same or fresh wrapper) is explored exhaustively on every graph over n components: after a successful start every holder (including the raw object inside a wrapper) sees the version GetComponentByName publishes.",
-			LevelNote: "Bounds: n<=2 (single+slice points), n<=3 (single point), one wrapped component; wrapping at before-initialization is outside (the callback contract for it is undocumented).",
+			LevelText: "Bounded symbolic model checking of the real factory with a substituting SmartInstantiationAware post-processor whose behaviour (which component is wrapped, at early reference and/or after initialization, same or fresh wrapper) is explored exhaustively on every graph over n components: after a successful start every holder (including the raw object inside a wrapper) sees the version GetComponentByName publishes. Run repeated-attempt-n2 adds histories in which a callback fails once, the application looks components up again and the creation attempt is repeated: every PUBLISHED holder must see the published version (one listed finding class: a holder completed inside an attempt of its target that failed later).",
+			LevelNote: "Bounds: n<=2 (single+slice points), n<=3 (single point), one wrapped component; repeated attempts: n=2, one failing callback, 2 lookups after the start; wrapping at before-initialization is outside (the callback contract for it is undocumented).",
 			Technique: techDefault, DesignRef: "DESIGN.md §3 C03"},
 		&CheckDef{ID: "C04", Title: "Singleton cache protocol",
 			Runs: func(tier string) []RunSpec {
